@@ -370,9 +370,12 @@ impl Job {
 
     pub fn set_waiting_state(&mut self, task_id: JobTaskId) {
         let task = self.tasks.get_mut(&task_id).unwrap();
-        assert!(matches!(task.state, JobTaskState::Running { .. }));
-        task.state = JobTaskState::Waiting;
-        self.counters.n_running_tasks -= 1;
+        // A multi-node task is reported as running on a lost root worker as soon as it is
+        // assigned, i.e. possibly before its start was announced; then it is still waiting.
+        if matches!(task.state, JobTaskState::Running { .. }) {
+            task.state = JobTaskState::Waiting;
+            self.counters.n_running_tasks -= 1;
+        }
     }
 
     pub fn set_failed_state(
